@@ -56,6 +56,29 @@ def install_files(R):
         return mk_V(f(T.VStr(nv.t), T.VStr(ev.t)))
     S["FileOf"] = aae
 
+    # Spec-level facts about the function symbol of auto_add_extension, kept free of string predicates so that the big VCs stay
+    # in UF: HasExtP(v) abstracts "the name contains a known extension".  They follow from the verified contract of
+    # auto_add_extension (C14: idempotent, kept_if_it_has_one) and the string lemma tmp_keeps_extension below.
+    n_, e_ = z3.String("n!"), z3.String("e!")
+    x_ = z3.Const("x!", V)
+    faae = z3.Function("ext:xyzpy/manage.py:auto_add_extension/2", V, V, V)
+    HasExtP = z3.Function("HasExtP", V, z3.BoolSort())
+    known = z3.Or(*[e_ == z3.StringVal(k) for k in EXTS])
+    t_ = faae(T.VStr(n_), T.VStr(e_))
+    R.axioms.append(("aae_result_has_extension", z3.ForAll([n_, e_], z3.Implies(known, z3.And(T.is_VStr(t_), HasExtP(t_))), patterns=[t_])))
+    tmpn = T.VStr(z3.Concat(T.sval(x_), z3.StringVal(".tmp")))
+    R.axioms.append(("aae_keeps_tmp_of_named_file", z3.ForAll([x_, e_], z3.Implies(z3.And(known, HasExtP(x_), T.is_VStr(x_)),
+                                                                                  faae(tmpn, T.VStr(e_)) == tmpn),
+                                                    patterns=[faae(tmpn, T.VStr(e_))])))
+
+    def string_lemmas(eng, pid):
+        from pyvc.state import VC
+        he = lambda s_: z3.Or(*[z3.Contains(s_, z3.StringVal(x)) for x in EXTS.values()])
+        n = z3.String("n")
+        return [VC("tmp_keeps_extension", "lemmas:Extensions", [], z3.Implies(he(n), he(z3.Concat(n, z3.StringVal(".tmp")))), kind="lemma", props=[pid])]
+    for pid in ("C05", "C14", "C10"):
+        R.extra_checks.setdefault(pid, []).append(string_lemmas)
+
     # external models ------------------------------------------------------------------------------
     def write_file(eng, fr, path, content, node, what):
         st = fr.st
@@ -174,4 +197,329 @@ def install_files(R):
                           z3.If(x == T.VBool(z3.BoolVal(True)), T.VStr(z3.StringVal("True")),
                                 z3.If(x == T.VBool(z3.BoolVal(False)), T.VStr(z3.StringVal("False")), x))))
     S["NetcdfAttr"] = netcdf_attr
+    return R
+
+
+def install_load_merge(R):
+    S = R.spec
+
+    def eff_engine(eng, fr, kwargs):
+        """kwargs.get('engine', 'h5netcdf')"""
+        kv = eng.as_V(kwargs)
+        key = T.VStr(z3.StringVal("engine"))
+        return mk_V(z3.If(T.mhas(kv, key), T.mat(kv, key), T.VStr(z3.StringVal("h5netcdf"))))
+    S["EngineOf"] = eff_engine
+    S["EmptyDataset"] = lambda eng, fr: mk_V(z3.Const("ext:xarray.Dataset", V))
+
+    R.add(M + "load_ds", result="V", props=["C14", "C05"], types={"file_name": "str", "engine": "str"},
+          requires=[("engine", "KnownEngine(engine)")],
+          trace=[("reads_only_the_named_file", "AllFileStepsOn(FileOf(old(file_name), engine))")],
+          ensures=[
+              ("what_was_stored", "implies(old(fs_exists(FileOf(file_name, engine))), result == old(fs_content(FileOf(file_name, engine))))"),
+              ("new_if_asked_and_absent", "implies(not old(fs_exists(FileOf(file_name, engine))), truthy(create_new) and result == EmptyDataset())"),
+              ("frame", "fs_unchanged()"),
+          ],
+          raises={"ValueError": dict(when="engine != 'joblib' and truthy(load_to_mem) and chunks is not None and "
+                                          "(fs_exists(FileOf(file_name, engine)) or not truthy(create_new))", unchanged=True),
+                  "OSError": dict(unchanged=True), "AnyError": dict(unchanged=True), "AttributeError": dict(unchanged=True)},
+          on_raise=[("fs_untouched", "fs_unchanged()")])
+
+    R.add(M + "save_merge_ds", result="none", props=["C05", "C14"], types={"ds": "obj:XrDataset", "fname": "str"},
+          requires=[("engine", "KnownEngine(EngineOf(kwargs)) and is_dict(ds.attrs)")],
+          modifies=["ghost:FS", "heap:ds"],
+          hooks={"skip_call_pre": {"save_ds": ["stored_under_name_with_extension", "frame"]}},
+          ensures=[
+              ("looks_where_it_saves", "AllFileStepsOn(FileOf(fname, EngineOf(kwargs))) and "
+                                       "implies(called('load_ds'), call_arg('load_ds', 'file_name') == fname and call_arg('load_ds', 'engine') == EngineOf(kwargs)) and "
+                                       "call_arg('save_ds', 'file_name') == fname and call_arg('save_ds', 'engine') == EngineOf(kwargs)"),
+              ("loads_existing_data", "called('load_ds') == old(fs_exists(FileOf(fname, EngineOf(kwargs))))"),
+              ("new_wins_when_overwriting", "implies(overwrite is True, ncalled('.combine_first') == 1 and call_arg_ext('.combine_first', 0) == ds and "
+                                            "call_arg_ext('.combine_first', 1) == OldData() and call_arg('save_ds', 'ds') == call_result_ext('.combine_first'))"),
+              ("old_wins_when_not_overwriting", "implies(overwrite is False, ncalled('.combine_first') == 1 and call_arg_ext('.combine_first', 0) == OldData() and "
+                                                "call_arg_ext('.combine_first', 1) == ds and call_arg('save_ds', 'ds') == call_result_ext('.combine_first'))"),
+              ("merge_or_fail_by_default", "implies(overwrite is not True and overwrite is not False, ncalled('xarray.merge') == 1 and "
+                                           "sget(call_arg_ext('xarray.merge', 0), 0) == OldData() and sget(call_arg_ext('xarray.merge', 0), 1) == ds and "
+                                           "call_arg('save_ds', 'ds') == call_result_ext('xarray.merge'))"),
+              ("saves_last", "last_call_is('save_ds')"),
+          ],
+          raises={"AnyError": dict(), "OSError": dict(), "ValueError": dict(), "AttributeError": dict()},
+          on_raise=[("nothing_saved_on_conflict", "implies(not called('save_ds'), fs_unchanged())")])
+
+    def call_arg_ext(eng, fr, name, k):
+        nm = name.t.as_string()
+        evs = [e for e in fr.st.events if e.kind == "call" and (e.name == nm or e.name.endswith(nm))]
+        if not evs:
+            raise T.MissingEvent(f"no call of {nm}")
+        i = k.t.as_long()
+        if i >= len(evs[0].args):
+            raise T.MissingEvent(f"call of {nm} has no argument {i}")
+        return evs[0].args[i]
+    S["call_arg_ext"] = call_arg_ext
+
+    def call_result_ext(eng, fr, name):
+        nm = name.t.as_string()
+        evs = [e for e in fr.st.events if e.kind == "call" and (e.name == nm or e.name.endswith(nm))]
+        if not evs or (evs[0].extra or {}).get("result") is None:
+            raise T.MissingEvent(f"no result of {nm}")
+        return evs[0].extra["result"]
+    S["call_result_ext"] = call_result_ext
+
+    def old_data(eng, fr):
+        """the dataset the merge starts from: what load_ds returned, or an empty Dataset"""
+        evs = [e for e in fr.st.events if e.kind == "call" and e.name.endswith(":load_ds")]
+        if evs and (evs[0].extra or {}).get("result") is not None:
+            return evs[0].extra["result"]
+        evs = [e for e in fr.st.events if e.kind == "call" and e.name == "xarray.Dataset"]
+        if evs and (evs[0].extra or {}).get("result") is not None:
+            return evs[0].extra["result"]
+        raise T.MissingEvent("no starting dataset on this path")
+    S["OldData"] = old_data
+    return R
+
+
+def install_harvester(R):
+    S = R.spec
+    R.fields.setdefault("Harvester", {}).update({"runner": "obj:Runner", "data_name": "V", "engine": "V", "chunks": "V", "_full_ds": "V"})
+
+    def hpath(eng, fr, h, engine=None):
+        dn = eng.heap_get(fr.st, h, "data_name")
+        en = eng.heap_get(fr.st, h, "engine") if (engine is None or engine.k == "none") else engine
+        if engine is not None and engine.k == "V":
+            ev = eng.as_V(engine)
+            en = mk_V(z3.If(T.is_VNone(ev), eng.as_V(eng.heap_get(fr.st, h, "engine")), ev))
+        return S["FileOf"](eng, fr, dn, en)
+    S["HarvestPath"] = hpath       # (replaces the placeholder used by the reap contracts: same symbol as auto_add_extension)
+
+    def eff(eng, fr, h, engine):
+        ev = eng.as_V(engine)
+        return mk_V(z3.If(T.is_VNone(ev), eng.as_V(eng.heap_get(fr.st, h, "engine")), ev))
+    S["EffEngine"] = eff
+
+    named = ("named", "is_str_value(self.data_name) and KnownEngine(EffEngine(self, engine)) and not IsTmp(HarvestPath(self, engine))")
+
+    R.add(FARM + "Harvester.load_full_ds", cls="Harvester", result="none", props=["C05", "C14"],
+          requires=[named],
+          modifies=["self._full_ds"],
+          trace=[("file_path", "AllFileStepsOn(HarvestPath(self, engine))"),
+                 ("loads_by_name", "implies(called('load_ds'), call_arg('load_ds', 'file_name') == self.data_name and call_arg('load_ds', 'engine') == EffEngine(self, engine))")],
+          ensures=[("memory_equals_disk", "implies(fs_exists(HarvestPath(self, engine)), self._full_ds == fs_content(HarvestPath(self, engine)))"),
+                   ("nothing_on_disk", "implies(not fs_exists(HarvestPath(self, engine)), self._full_ds == old(self._full_ds))"),
+                   ("frame", "fs_unchanged()")],
+          raises={"OSError": dict(ensures=["fs_unchanged()"]), "AnyError": dict(ensures=["fs_unchanged()"]), "ValueError": dict(ensures=["fs_unchanged()"]),
+                  "AttributeError": dict(ensures=["fs_unchanged()"])},
+          on_raise=[("fs_untouched", "fs_unchanged()")])
+
+    def data_old_or_new(eng, fr, h, engine, new):
+        """no real name changed except that the data file may already be the complete new dataset"""
+        q = z3.Const(fresh_name("q"), V)
+        g0, g1 = fr.old.ghost, fr.st.ghost
+        R.symbols["note_tmp_names"](eng, fr)
+        pth = hpath(eng, fr.sub(st=fr.old), h, engine).t
+        istmp = R.symbols["istmp"]
+        same = R.symbols["same_at"](g0, g1, q)
+        nv = eng.as_V(new)
+        isnew = z3.And(z3.Select(g1["FS_ex"].t, q), z3.Select(g1["FS_ok"].t, q), z3.Select(g1["FS_ct"].t, q) == nv)
+        return mk_bool(z3.ForAll([q], z3.Implies(z3.Not(istmp(q)), z3.If(q == pth, z3.Or(same, isnew), same))))
+    S["DataOldOrNew"] = data_old_or_new
+
+    R.add(FARM + "Harvester.save_full_ds", cls="Harvester", result="none", props=["C05", "C14", "C10"],
+          types={"new_full_ds": "V"},
+          requires=[("named", "implies(self.data_name is not None, is_str_value(self.data_name) and KnownEngine(EffEngine(self, engine)) and "
+                              "not IsTmp(HarvestPath(self, engine)))"),
+                    ("single_file_engine", "EffEngine(self, engine) != 'zarr'")],
+          modifies=["self._full_ds", "ghost:FS", "*"],
+          hooks={"skip_call_pre": {"save_ds": ["stored_under_name_with_extension", "frame"]}},
+          crash=[("crash.harvested_data_old_or_new", "implies(old(new_full_ds) is not None, DataOldOrNew(self, engine, old(new_full_ds)))")],
+          ensures=[
+              ("saved_under_its_name", "implies(old(new_full_ds) is not None, fs_exists(HarvestPath(self, engine)) and fs_complete(HarvestPath(self, engine)) and "
+                                       "fs_content(HarvestPath(self, engine)) == old(new_full_ds) and self._full_ds == old(new_full_ds))"),
+              ("only_its_file", "implies(old(new_full_ds) is not None, DataOldOrNew(self, engine, old(new_full_ds)))"),
+              ("frame", "fs_same_except(old(HarvestPath(self, engine)))"),
+          ],
+          raises={"XYZError": dict(when="self.data_name is None", ensures=["fs_unchanged()"]), "OSError": dict(), "AnyError": dict()},
+          on_raise=[("crash.harvested_data_old_or_new", "implies(old(new_full_ds) is not None, DataOldOrNew(self, engine, old(new_full_ds)))")])
+    return R
+
+
+def install_harvester2(R):
+    S = R.spec
+    R.pure_ext |= {".copy"}
+    # assumed: xarray's combine_first / merge / chunk / to_dataset return Datasets (never None)
+    a_, b_, c_ = (z3.Const(n, V) for n in ("a!", "b!", "c!"))
+    for sym, ar in ((".combine_first", 2), (".merge|compat", 3), (".chunk", 2), (".to_dataset", 1)):
+        f = z3.Function(f"ext:{sym}/{ar}", *([V] * ar), V)
+        args = [a_, b_, c_][:ar]
+        R.axioms.append((f"returns_dataset[{sym}]", z3.ForAll(args, z3.And(T.is_VObj(f(*args)), T.tag(f(*args)) == T.TAG["dataset"]), patterns=[f(*args)])))
+    named = ("named", "implies(self.data_name is not None, is_str_value(self.data_name) and KnownEngine(EffEngine(self, engine)) and "
+                      "not IsTmp(HarvestPath(self, engine)) and EffEngine(self, engine) != 'zarr')")
+
+    def ext_first_arg(eng, fr, name, k):
+        return S["call_arg_ext"](eng, fr, name, k)
+
+    # the data taking part are datasets (the frame clause `only_data_file` does not depend on it)
+    DSOK = ("old(isinst(new_ds, 'Dataset') and (self._full_ds is None or isinst(self._full_ds, 'Dataset')) and "
+            "implies(self.data_name is not None and fs_exists(HarvestPath(self, engine)), isinst(fs_content(HarvestPath(self, engine)), 'Dataset')))")
+    R.add(FARM + "Harvester.add_ds", cls="Harvester", result="none", props=["C05", "C06", "C12"],
+          requires=[named],
+          modifies=["self._full_ds", "ghost:FS"],
+          ensures=[("only_data_file", "fs_same_except(old(HarvestPath(self, engine)))")] + [(n_, f"implies({DSOK}, {t_})") for n_, t_ in [
+              ("reloads_disk_first_when_syncing", "implies(truthy(sync) and self.data_name is not None, called('Harvester.load_full_ds') and "
+                                                  "called_before('Harvester.load_full_ds', 'Harvester.save_full_ds') and "
+                                                  "call_arg('Harvester.load_full_ds', 'engine') == engine)"),
+              ("new_wins_when_overwriting", "implies(overwrite is True and MergedFrom() is not None, ncalled('.combine_first') == 1 and "
+                                            "call_arg_ext('.combine_first', 1) == MergedFrom() and Saved() == call_result_ext('.combine_first') and "
+                                            "call_arg_ext('.combine_first', 0) == NewData())"),
+              ("old_wins_when_not_overwriting", "implies(overwrite is False and MergedFrom() is not None, ncalled('.combine_first') == 1 and "
+                                                "call_arg_ext('.combine_first', 0) == MergedFrom() and call_arg_ext('.combine_first', 1) == NewData() and "
+                                                "Saved() == call_result_ext('.combine_first'))"),
+              ("merge_or_fail_by_default", "implies(overwrite is not True and overwrite is not False and MergedFrom() is not None, ncalled('.merge') == 1 and "
+                                           "call_arg_ext('.merge', 0) == MergedFrom() and call_arg_ext('.merge', 1) == NewData() and "
+                                           "Saved() == call_result_ext('.merge'))"),
+              ("first_data_is_stored_as_is", "implies(MergedFrom() is None, Saved() == NewData())"),
+              ("memory_equals_disk_when_synced", "implies(truthy(sync) and old(self.data_name) is not None, "
+                                                 "self._full_ds == fs_content(HarvestPath(self, engine)) and fs_exists(HarvestPath(self, engine)) "
+                                                 "and self._full_ds == Saved())"),
+              ("memory_only_when_not_synced", "implies(not (truthy(sync) and old(self.data_name) is not None), fs_unchanged() and self._full_ds == Saved())"),
+          ]],
+          raises={k_: dict(ensures=["fs_same_except(old(HarvestPath(self, engine)))"]) for k_ in ("AnyError", "OSError", "ValueError", "XYZError", "AttributeError")},
+          on_raise=[("conflict_leaves_disk_unchanged", "implies(not called('Harvester.save_full_ds'), fs_unchanged())"),
+                    ("conflict_leaves_memory_as_on_disk", "implies(not called('Harvester.save_full_ds'), "
+                                                          "self._full_ds == (old(self._full_ds) if not called('Harvester.load_full_ds') else self._full_ds))")])
+
+    def merged_from(eng, fr):
+        """the dataset new data is merged into: self._full_ds right after the optional reload (None if there is none yet)"""
+        st = fr.st
+        me = st.env["self"]
+        evs = [e for e in st.events if e.kind == "call" and e.name.endswith("Harvester.load_full_ds")]
+        if evs and "full_after" in (evs[0].extra or {}):
+            return evs[0].extra["full_after"]
+        return eng.heap_get(fr.old if fr.old is not None else st, me, "_full_ds")
+    S["MergedFrom"] = merged_from
+
+    def saved(eng, fr):
+        """what is stored as the new full dataset: argument of save_full_ds, or the in-memory dataset when not syncing"""
+        st = fr.st
+        evs = [e for e in st.events if e.kind == "call" and e.name.endswith("Harvester.save_full_ds")]
+        if evs:
+            return evs[0].extra["env"]["new_full_ds"]
+        return eng.heap_get(st, st.env["self"], "_full_ds")
+    S["Saved"] = saved
+
+    def new_data(eng, fr):
+        """the (possibly converted / chunked) new dataset that takes part in the merge"""
+        st = fr.st
+        return st.env["new_ds"]
+    S["NewData"] = new_data
+
+    lf = R.get(FARM + "Harvester.load_full_ds")
+
+    def after_load(eng, cf, res):
+        # remember what memory holds right after the reload, for add_ds's trace obligations
+        ev = [e for e in cf.st.events if e.kind == "call" and e.name.endswith("Harvester.load_full_ds")]
+        if ev:
+            ev[-1].extra["full_after"] = eng.heap_get(cf.st, cf.st.env["self"], "_full_ds")
+    lf.hooks["after_call"] = after_load
+    return R
+
+
+def install_harvester3(R):
+    S = R.spec
+    named0 = ("named", "is_str_value(self.data_name) and KnownEngine(self.engine) and not IsTmp(HarvestPath(self))")
+
+    R.add(FARM + "Harvester.full_ds", cls="Harvester", result="V", props=["C05"],
+          requires=[named0],
+          modifies=["self._full_ds"],
+          ensures=[("memory", "implies(old(self._full_ds) is not None, result == old(self._full_ds))"),
+                   ("from_disk_if_not_loaded", "implies(old(self._full_ds) is None and fs_exists(HarvestPath(self)), result == fs_content(HarvestPath(self)))"),
+                   ("frame", "fs_unchanged()")],
+          raises={"OSError": dict(ensures=["fs_unchanged()"]), "AnyError": dict(ensures=["fs_unchanged()"]), "ValueError": dict(ensures=["fs_unchanged()"]),
+                  "AttributeError": dict(ensures=["fs_unchanged()"])})
+    R.impure_props |= {"full_ds"}
+
+    R.add(FARM + "Harvester.delete_ds", cls="Harvester", result="none", props=["C05", "C14"],
+          requires=[named0, ("single_file_engine", "self.engine != 'zarr'"), ("no_backup", "not truthy(backup)")],
+          modifies=["ghost:FS"],
+          trace=[("file_path", "AllFileStepsOn(HarvestPath(self))")],
+          ensures=[("removed", "not fs_exists(HarvestPath(self))"), ("frame", "fs_same_except(HarvestPath(self))")],
+          raises={"FileNotFoundError": dict(when="not fs_exists(HarvestPath(self))", ensures=["fs_unchanged()"]), "AnyError": dict()})
+
+    fwd = ("harvests_like_a_direct_run_then_merges", None)
+    R.add(FARM + "Harvester.harvest_cases", cls="Harvester", result="none", props=["C05", "C06"],
+          modifies=["*"],
+          hooks={"skip_call_pre": {"Runner.run_cases": [], "Harvester.add_ds": []}},
+          ensures=[("runs_then_merges", "ncalled('Runner.run_cases') == 1 and call_arg('Runner.run_cases', 'self') == old(self.runner) and "
+                                        "call_arg('Runner.run_cases', 'cases') == cases and ncalled('Harvester.add_ds') == 1 and "
+                                        "call_arg('Harvester.add_ds', 'new_ds') == call_result('Runner.run_cases') and "
+                                        "call_arg('Harvester.add_ds', 'sync') == sync and call_arg('Harvester.add_ds', 'overwrite') == overwrite and "
+                                        "call_arg('Harvester.add_ds', 'chunks') == chunks and call_arg('Harvester.add_ds', 'engine') == engine and "
+                                        "called_before('Runner.run_cases', 'Harvester.add_ds')")],
+          raises={"AnyError": dict()})
+    return R
+
+
+def install_harvester4(R):
+    """harvest_combos / expand_dims / drop_sel (C05): forwarding contracts"""
+    S = R.spec
+    R.add(FARM + "Harvester.harvest_combos", cls="Harvester", result="none", props=["C05", "C06"],
+          modifies=["*"],
+          requires=[("spelling", "combos is None or is_dict(combos) or is_seq(combos)")],
+          hooks={"skip_call_pre": {"Runner.run_combos": [], "Harvester.add_ds": [], "Harvester.full_ds": []}},
+          ensures=[("runs_then_merges", "ncalled('Runner.run_combos') == 1 and call_arg('Runner.run_combos', 'self') == old(self.runner) and "
+                                        "ncalled('Harvester.add_ds') == 1 and "
+                                        "call_arg('Harvester.add_ds', 'new_ds') == call_result('Runner.run_combos') and "
+                                        "call_arg('Harvester.add_ds', 'sync') == sync and call_arg('Harvester.add_ds', 'overwrite') == overwrite and "
+                                        "call_arg('Harvester.add_ds', 'chunks') == chunks and call_arg('Harvester.add_ds', 'engine') == engine and "
+                                        "called_before('Runner.run_combos', 'Harvester.add_ds')"),
+                   ("combos_as_given", "call_arg('parse_combos', 'combos') == old(combos)"),
+                   ("keys_and_given_values_kept", "slen(call_arg('Runner.run_combos', 'combos')) == slen(call_result('parse_combos')) and "
+                                                  "forall(lambda t: implies(0 <= t and t < slen(call_result('parse_combos')), "
+                                                  "sget(sget(call_arg('Runner.run_combos', 'combos'), t), 0) == sget(sget(call_result('parse_combos'), t), 0) and "
+                                                  "implies(sget(sget(call_result('parse_combos'), t), 1) is not ..., "
+                                                  "sget(sget(call_arg('Runner.run_combos', 'combos'), t), 1) == sget(sget(call_result('parse_combos'), t), 1))))")],
+          loops={"comp0": dict(idx="_i", modifies=["self._full_ds"], inv=[
+              ("built", "is_seq(_acc_comp0) and slen(_acc_comp0) == _i and forall(lambda t: implies(0 <= t and t < _i, "
+                        "sget(sget(_acc_comp0, t), 0) == sget(sget(_t3, t), 0) and "
+                        "implies(sget(sget(_t3, t), 1) is not ..., sget(sget(_acc_comp0, t), 1) == sget(sget(_t3, t), 1))))"),
+              ("nothing_run_yet", "not called('Runner.run_combos') and not called('Harvester.add_ds')")])},
+          raises={"AnyError": dict()})
+
+    R.opaque_mutable_attrs |= {"coords"}
+    for nm, ext in (("drop_sel", ".drop_sel"), ("expand_dims", ".expand_dims")):
+        R.add(FARM + "Harvester." + nm, cls="Harvester", result="none", props=["C05"],
+              modifies=["*"],
+              hooks={"skip_call_pre": {"Harvester.save_full_ds": [], "Harvester.full_ds": []}},
+              ensures=[("derived_from_the_full_dataset", f"call_arg_ext('{ext}', 0) == call_result('Harvester.full_ds')"),
+                       ("synced_or_in_memory", f"(ncalled('Harvester.save_full_ds') == 1 and call_arg('Harvester.save_full_ds', 'new_full_ds') == call_result_ext('{ext}') "
+                                               f"and call_arg('Harvester.save_full_ds', 'engine') == engine) if old(self.data_name) is not None else "
+                                               f"(not called('Harvester.save_full_ds') and self._full_ds == call_result_ext('{ext}'))")],
+              raises={"AnyError": dict()})
+    R.get(FARM + "Harvester.expand_dims").ensures.append(
+        ("new_coordinate_holds_the_value", "call_arg_ext('.coords.__setitem__', 0) == call_result_ext('.expand_dims') and call_arg_ext('.expand_dims', 1) == name and "
+                                           "slen(mat(call_arg_ext('.coords.__setitem__', 1), name)) == 1 and sget(mat(call_arg_ext('.coords.__setitem__', 1), name), 0) == value"))
+    return R
+
+
+def install_meta(R):
+    R.prop_meta["C05"] = dict(
+        bounded_in_quick="random harvest histories on the real code against a dict model of 'everything ever harvested': replay/C05.py (harvest_combos / harvest_cases, "
+                         "overlapping and disjoint coordinate sets, conflicting values, all three overwrite policies, engines h5netcdf and joblib, data names with and "
+                         "without extension, new Harvester objects (sessions) at random steps; memory == disk == model after every step, conflicts leave both unchanged)",
+        not_decided=["that xarray.merge(compat='no_conflicts') / Dataset.combine_first implement 'identical or disjoint data merge, conflicts raise' / 'first argument wins' "
+                     "cell by cell is a library property: the contracts prove which of them is called with which (old, new) argument order and that its result is what is "
+                     "stored in memory and on disk; the cell-level statement is exercised by the bounded replay only",
+                     "the whole-history claim follows by induction over the history from add_ds (disk reloaded first, merged into, saved, memory == disk) and "
+                     "load_full_ds/save_full_ds using the same file name; the induction itself is a meta-argument, exercised by the bounded replay",
+                     "zarr engine (directory store) and backup=True of delete_ds are outside the contracts"],
+        assumptions=["dataset files are whole values on the ghost file system: what save_ds stores under a name is what load_ds returns for that name (C14 bounded round trip)"],
+    )
+    R.prop_meta["C14"] = dict(
+        bounded_in_quick="save/load round trips on the real code and the real libraries: replay/C14.py (0-4 dimensions, float with NaN / complex / int / bool / str data, "
+                         "int and str coordinates, None/True/False/int/str attributes, engines h5netcdf and joblib, names with and without extension, chunks None/int/dict, "
+                         "directory listing checked for the single expected file name; save, load, save_merge_ds, Harvester load/save/delete agree on the name)",
+        not_decided=["value identity through h5netcdf / joblib (dtype, NaN, complex via invalid_netcdf) is a property of the libraries: bounded replay only",
+                     "netcdf4 and zarr engines are not importable here",
+                     "lazy (chunks) == in-memory values: bounded replay only"],
+        assumptions=["auto_add_extension's string contract (z3 sequence theory / cvc5): result keeps a name that contains a known extension and appends the engine's otherwise; "
+                     "every other function refers to the file only through that function symbol (AllFileStepsOn / FileOf)"],
+    )
     return R
